@@ -1,27 +1,234 @@
 package main
 
+// nsqvc: contract-based deductive verifier for nsqio/nsq (own VC generator over go/ssa).
+//
+//   nsqvc check -prop C12 [-tier quick|thorough] [-fn substr]
+//   nsqvc lock                       regenerate contracts.lock from the current tree
+//   nsqvc dump -fn substr            print SSA and obligations of matching functions
+
 import (
+	"encoding/json"
+	"flag"
 	"fmt"
 	"os"
-
-	"golang.org/x/tools/go/packages"
-	"golang.org/x/tools/go/ssa"
-	"golang.org/x/tools/go/ssa/ssautil"
+	"path/filepath"
+	"sort"
+	"strings"
+	"time"
 )
 
+const verifDir = "/verif"
+
 func main() {
-	cfg := &packages.Config{Mode: packages.LoadSyntax, Dir: "/repo", BuildFlags: []string{"-tags=verif"}}
-	pkgs, err := packages.Load(cfg, os.Args[1:]...)
-	if err != nil {
-		panic(err)
+	if len(os.Args) < 2 {
+		fmt.Fprintln(os.Stderr, "usage: nsqvc check|lock|dump ...")
+		os.Exit(2)
 	}
-	prog, spkgs := ssautil.Packages(pkgs, ssa.NaiveForm)
-	_ = prog
-	for _, p := range spkgs {
-		p.Build()
-		if f := p.Func("ByteToBase10"); f != nil {
-			f.WriteTo(os.Stdout)
+	cmd := os.Args[1]
+	fs := flag.NewFlagSet(cmd, flag.ExitOnError)
+	prop := fs.String("prop", "", "property id")
+	tier := fs.String("tier", "quick", "quick|thorough")
+	fnFilter := fs.String("fn", "", "only functions whose name contains this")
+	repo := fs.String("repo", "/repo", "repository root")
+	outDir := fs.String("out", filepath.Join(verifDir, "out"), "scratch output directory")
+	noReplay := fs.Bool("noreplay", false, "skip replay of counterexamples")
+	verbose := fs.Bool("v", false, "verbose")
+	fs.Parse(os.Args[2:])
+	switch cmd {
+	case "check":
+		os.Exit(runCheck(*repo, *prop, *tier, *fnFilter, *outDir, *noReplay, *verbose))
+	case "lock":
+		os.Exit(runLock(*repo, *outDir))
+	case "dump":
+		os.Exit(runDump(*repo, *fnFilter))
+	}
+	fmt.Fprintln(os.Stderr, "unknown command", cmd)
+	os.Exit(2)
+}
+
+func contractPkgs(e *Engine, prop, fnFilter string) []string {
+	set := map[string]bool{}
+	for _, fc := range e.contracts.Funcs {
+		set[fc.PkgPath] = true
+	}
+	var ps []string
+	for p := range set {
+		ps = append(ps, p)
+	}
+	sort.Strings(ps)
+	return ps
+}
+
+func hasProp(ps []string, p string) bool {
+	for _, x := range ps {
+		if x == p {
+			return true
 		}
-		fmt.Println(p.Pkg.Path())
 	}
+	return false
+}
+
+func setup(repo string) (*Engine, error) {
+	e, err := newEngine(repo, filepath.Join(verifDir, "lib", "trusted"))
+	if err != nil {
+		return nil, err
+	}
+	pkgs := contractPkgs(e, "", "")
+	if len(pkgs) == 0 {
+		return nil, fmt.Errorf("no contract files found under %s", repo)
+	}
+	if err := e.load(pkgs); err != nil {
+		return nil, err
+	}
+	return e, nil
+}
+
+func runDump(repo, filter string) int {
+	e, err := setup(repo)
+	if err != nil {
+		fmt.Fprintln(os.Stderr, "nsqvc:", err)
+		return 2
+	}
+	for _, fc := range e.contracts.Funcs {
+		fn := e.contractFn[fc]
+		if fn == nil || !strings.Contains(e.displayName(fn), filter) {
+			continue
+		}
+		fn.WriteTo(os.Stdout)
+		t, err := e.translate(fc)
+		if err != nil {
+			fmt.Println("ERROR:", err)
+		}
+		if t != nil {
+			for _, o := range t.obls {
+				fmt.Printf("  %-70s %s  [%s]\n", o.Name, o.Pos, o.Desc)
+			}
+		}
+	}
+	return 0
+}
+
+type lockFile map[string][]string
+
+func readLock() lockFile {
+	lf := lockFile{}
+	data, err := os.ReadFile(filepath.Join(verifDir, "contracts.lock"))
+	if err == nil {
+		json.Unmarshal(data, &lf)
+	}
+	return lf
+}
+
+func runLock(repo, outDir string) int {
+	e, err := setup(repo)
+	if err != nil {
+		fmt.Fprintln(os.Stderr, "nsqvc:", err)
+		return 2
+	}
+	lf := lockFile{}
+	for _, fc := range e.contracts.Funcs {
+		if fc.Trusted {
+			continue
+		}
+		t, err := e.translate(fc)
+		if err != nil {
+			fmt.Fprintln(os.Stderr, "nsqvc:", err)
+			return 2
+		}
+		for _, p := range fc.Props {
+			for _, o := range t.obls {
+				if o.Kind == "safety" {
+					continue // safety sites move with harmless edits; their count is not locked
+				}
+				lf[p] = append(lf[p], o.Name)
+			}
+		}
+	}
+	for _, l := range e.contracts.Lemmas {
+		for _, p := range l.Props {
+			if !l.Axiom {
+				lf[p] = append(lf[p], "lemma/"+l.Name)
+			}
+		}
+	}
+	for p := range lf {
+		sort.Strings(lf[p])
+		lf[p] = uniq(lf[p])
+	}
+	data, _ := json.MarshalIndent(lf, "", " ")
+	os.WriteFile(filepath.Join(verifDir, "contracts.lock"), append(data, '\n'), 0o644)
+	n := 0
+	for _, v := range lf {
+		n += len(v)
+	}
+	fmt.Printf("contracts.lock: %d properties, %d locked obligations\n", len(lf), n)
+	return 0
+}
+
+func runCheck(repo, prop, tier, fnFilter, outDir string, noReplay, verbose bool) int {
+	start := time.Now()
+	if prop == "" {
+		fmt.Fprintln(os.Stderr, "nsqvc check: -prop required")
+		return 2
+	}
+	e, err := setup(repo)
+	if err != nil {
+		fmt.Fprintln(os.Stderr, "nsqvc: cannot decide (engine error, fail closed):", err)
+		return 2
+	}
+	timeout := 10 * time.Second
+	cross := false
+	if tier == "thorough" {
+		timeout = 120 * time.Second
+		cross = true
+	}
+	out := filepath.Join(outDir, prop)
+	os.RemoveAll(out)
+	os.MkdirAll(out, 0o755)
+	var ts []*fnTrans
+	var trusted []*FuncContract
+	for _, fc := range e.contracts.Funcs {
+		if !hasProp(fc.Props, prop) {
+			continue
+		}
+		if fnFilter != "" && !strings.Contains(e.displayName(e.contractFn[fc]), fnFilter) {
+			continue
+		}
+		if fc.Trusted {
+			trusted = append(trusted, fc)
+			continue
+		}
+		t, err := e.translate(fc)
+		if err != nil {
+			fmt.Fprintln(os.Stderr, "nsqvc: cannot decide (engine error, fail closed):", err)
+			return 2
+		}
+		t.addCovers()
+		ts = append(ts, t)
+	}
+	lt := e.lemmaTrans(prop)
+	if lt != nil {
+		ts = append(ts, lt)
+	}
+	if len(ts) == 0 {
+		fmt.Fprintf(os.Stderr, "nsqvc: no function under contract serves %s\n", prop)
+		return 2
+	}
+	solveAll(ts, out, timeout, cross, 16)
+	rep := buildReport(e, prop, tier, ts, trusted, out, noReplay, fnFilter == "")
+	rep.WallS = time.Since(start).Seconds()
+	rep.print(verbose)
+	if fnFilter == "" {
+		if err := rep.writeEvidence(filepath.Join(verifDir, "evidence", prop+".json")); err != nil {
+			fmt.Fprintln(os.Stderr, "nsqvc: cannot write evidence:", err)
+			return 2
+		}
+	}
+	if rep.Violations > 0 {
+		return 1
+	}
+	if rep.EngineFault {
+		return 2
+	}
+	return 0
 }
